@@ -262,6 +262,12 @@ class Check:
         self.n_replay = 0
         self.lines: list[str] = []
         self.scratch = BUILD / f"run-{os.getpid()}"
+        if REPLAYS.exists():
+            for f in REPLAYS.glob(f"{prop}-{seed}-*.json"):
+                try:
+                    f.unlink()
+                except OSError:
+                    pass
 
     # -- scratch
     def mkscratch(self):
